@@ -737,7 +737,7 @@ func modelAtomicLoad(fc *FnCtx, fr *Frame, st *State, instr ssa.Instruction, c *
 	cur := tSelect(h, recv)
 	fc.assume(st, rangeFact(cur, types.Typ[types.Uint64]))
 	// rely: the environment may have changed the value since our last access, within the declared relation
-	if ai := fc.eng.atomics[atomicKeyOf(c.Args[0])]; ai != nil {
+	if ai := fc.eng.atomicFor(atomicKeyOf(c.Args[0])); ai != nil {
 		nv := fc.fresh("atload", SInt)
 		fc.assume(st, rangeFact(nv, types.Typ[types.Uint64]))
 		env := fc.frameEnv(fr, st)
@@ -754,7 +754,7 @@ func modelAtomicStore(fc *FnCtx, fr *Frame, st *State, instr ssa.Instruction, c 
 	recv := termArg(fc, st, args, 0, nil)
 	v := termArg(fc, st, args, 1, nil)
 	h := fc.heap(st, "AT_u64", SInt)
-	if ai := fc.eng.atomics[atomicKeyOf(c.Args[0])]; ai != nil {
+	if ai := fc.eng.atomicFor(atomicKeyOf(c.Args[0])); ai != nil {
 		// guarantee: the write must respect the relation w.r.t. ANY value the environment may have produced
 		cur := fc.fresh("atcur", SInt)
 		fc.assume(st, rangeFact(cur, types.Typ[types.Uint64]))
@@ -778,7 +778,7 @@ func modelAtomicCAS(fc *FnCtx, fr *Frame, st *State, instr ssa.Instruction, c *s
 	nv := termArg(fc, st, args, 2, nil)
 	h := fc.heap(st, "AT_u64", SInt)
 	cur := tSelect(h, recv)
-	if ai := fc.eng.atomics[atomicKeyOf(c.Args[0])]; ai != nil {
+	if ai := fc.eng.atomicFor(atomicKeyOf(c.Args[0])); ai != nil {
 		c2 := fc.fresh("atcur", SInt)
 		fc.assume(st, rangeFact(c2, types.Typ[types.Uint64]))
 		env := fc.frameEnv(fr, st)
